@@ -295,13 +295,25 @@ def c03_stale_old_after_class_default_reassigned():
     return None if not bad else '; '.join(bad)
 
 
+def c03_dynamic_value_read_inside_watcher():
+    """fix cc817e8: a watcher reading a Dynamic parameter that was just assigned a callable got the raw callable"""
+    import param
+    class A(param.Parameterized):
+        x = param.Number(0)
+    a = A()
+    seen = []
+    a.param.watch(lambda e: seen.append(a.x), 'x')
+    a.x = lambda: 4
+    return None if seen == [4] and a.x == 4 else f'the watcher read {seen!r}, afterwards a.x == {a.x!r}'
+
+
 if __name__ == '__main__':
     for f in [c03_slot_watcher_list_mutated, c03_slot_watcher_registered_in_callback, c16_selector_schema_unnamed_object,
               c18_remove_equal_not_identical, c18_extend_iterator, c18_update_mapping, c18_pop_default,
               c05_class_trigger_inherited_event, c05_failed_watch_registers_nothing, c02_rejected_class_assignment_copy, c08_relink_per_instance_false,
               c12_subclass_copy_shares_containers, c17_multi_name_watcher_after_copy, c17_depth2_dependency_copy,
               c12_instance_copy_of_blanking_parameter, c17_copy_inside_open_batch,
-              c03_stale_old_after_class_default_reassigned]:
+              c03_stale_old_after_class_default_reassigned, c03_dynamic_value_read_inside_watcher]:
         try: r = f()
         except Exception as e: r = f'demo crashed: {type(e).__name__}: {e}'
         print(f'{f.__name__:44s}', 'DEFECT: ' + r if r else 'ok')
